@@ -345,6 +345,42 @@ def trace_analyse(rng: random.Random, n_ops: int) -> Optional[Dict[str, Any]]:
     return {"kind": "analyse", "same_out": bool(same_out), "same_grad": bool(same_grad), "nodes": nodes, "code": gm.code}
 
 
+HIST = [("all",), ("all",), ("all", "none"), ("all", "first"), ("none", "all", "none"), ("first", "all")]
+
+
+def generate(gen: List[Any]) -> Optional[List[Dict[str, Any]]]:
+    """One self-contained case: gen = [family, case seed, ...]; recorded in every trace so that a replay re-creates it."""
+    crng = random.Random(gen[1])
+    if gen[0] == "backend":
+        ts = trace_backend(crng, gen[2], tuple(gen[3]))
+    elif gen[0] == "backend_real":
+        ts = trace_backend_real(crng, gen[2], gen[4], tuple(gen[3]))
+    elif gen[0] == "analyse":
+        t = trace_analyse(crng, gen[2])
+        ts = None if t is None else [t]
+    else:
+        ts = trace_dynamo(crng, gen[2], tuple(gen[3]))
+    for t in ts or []:
+        t["gen"] = gen
+    return ts
+
+
+def judge(rep: Report, traces: List[Dict[str, Any]]) -> None:
+    payload = [{"kind": t["kind"], "same_out": t["same_out"], "same_grad": t["same_grad"],
+                "nodes": [dict({"fwd_bad": "", "bwd_bad": ""}, **{k: v for k, v in n.items() if k != "name"}) for n in t["nodes"]]} for t in traces]
+    B = 400
+    for i in range(0, len(payload), B):
+        out = common.validate_traces("TrackScales_Trace", "TrackScales_Trace.cfg", payload[i : i + B], timeout=1800, tag="tstr")
+        rep.add_trace_result(out)
+        for (l, k, clause) in out["fails"]:
+            t = traces[i + l - 1]
+            node = t["nodes"][k - 1] if k >= 1 else None
+            if clause.startswith("harness_"):
+                raise common.MachineryError(f"TrackScales_Trace: {clause}")
+            rep.violation(f"{t['kind']} run: {clause}" + (f" at node {node['name']}: recorded fwd={node['fwd']} bwd={node['bwd']} captured fwd={node['cf']} bwd={node['cb']}" if node else "") + f"; module:\n{t['code'][:400]}",
+                          {"gen": t.get("gen"), "trace": {k2: v for k2, v in t.items() if k2 != "code"}, "clause": clause, "node": k, "code": t["code"]}, key=f"{clause}:{t['kind']}")
+
+
 def run(rep: Report, tier: str) -> None:
     rng = random.Random(common.seed() * 47 + 14)
     torch.manual_seed(common.seed())
@@ -363,48 +399,24 @@ def run(rep: Report, tier: str) -> None:
         rep.add_tlc(rs, with_cov=False)
     traces: List[Dict[str, Any]] = []
     skipped = 0
-    HIST = [("all",), ("all",), ("all", "none"), ("all", "first"), ("none", "all", "none"), ("first", "all")]
+    gens: List[List[Any]] = []
     for i in range(150 if quick else 1500):
-        ts = trace_backend(rng, rng.randint(1, 7), HIST[i % len(HIST)])
-        if ts is None:
-            skipped += 1
-            continue
-        traces += ts
-        rep.case(("backend", i), nontrivial=len(ts[0]["nodes"]) >= 4)
+        gens.append(["backend", rng.randrange(1 << 30), rng.randint(1, 7), list(HIST[i % len(HIST)])])
     for i in range(60 if quick else 900):
-        dt = ("f64", "f64", "f32")[i % 3]
-        ts = trace_backend_real(rng, rng.randint(1, 7), dt, HIST[i % len(HIST)])
+        gens.append(["backend_real", rng.randrange(1 << 30), rng.randint(1, 7), list(HIST[i % len(HIST)]), ("f64", "f64", "f32")[i % 3]])
+    for i in range(40 if quick else 400):
+        gens.append(["analyse", rng.randrange(1 << 30), rng.randint(1, 6)])
+    for v in range(3 if quick else 12):
+        gens.append(["dynamo", rng.randrange(1 << 30), v, list([("all", "none"), ("all",), ("none", "all", "none")][v % 3])])
+    for i, gen in enumerate(gens):
+        ts = generate(gen)
         if ts is None:
             skipped += 1
             continue
         traces += ts
-        rep.case(("backend_real", dt, i), nontrivial=len(ts[0]["nodes"]) >= 4)
-    for i in range(40 if quick else 400):
-        t = trace_analyse(rng, rng.randint(1, 6))
-        if t is None:
-            skipped += 1
-            continue
-        traces.append(t)
-        rep.case(("analyse", i))
-    for v in range(3 if quick else 12):
-        ts = trace_dynamo(rng, v, [("all", "none"), ("all",), ("none", "all", "none")][v % 3])
-        if ts is not None:
-            traces += ts
-            rep.case(("dynamo", v))
+        rep.case((gen[0], i), nontrivial=len(ts[0]["nodes"]) >= 4)
     rep.extra["graphs_skipped_values_out_of_exact_range"] = skipped
-    payload = [{"kind": t["kind"], "same_out": t["same_out"], "same_grad": t["same_grad"],
-                "nodes": [dict({"fwd_bad": "", "bwd_bad": ""}, **{k: v for k, v in n.items() if k != "name"}) for n in t["nodes"]]} for t in traces]
-    B = 400
-    for i in range(0, len(payload), B):
-        out = common.validate_traces("TrackScales_Trace", "TrackScales_Trace.cfg", payload[i : i + B], timeout=1800, tag="tstr")
-        rep.add_trace_result(out)
-        for (l, k, clause) in out["fails"]:
-            t = traces[i + l - 1]
-            node = t["nodes"][k - 1] if k >= 1 else None
-            if clause.startswith("harness_"):
-                raise common.MachineryError(f"TrackScales_Trace: {clause}")
-            rep.violation(f"{t['kind']} run: {clause}" + (f" at node {node['name']}: recorded fwd={node['fwd']} bwd={node['bwd']} captured fwd={node['cf']} bwd={node['cb']}" if node else "") + f"; module:\n{t['code'][:400]}",
-                          {"trace": {k2: v for k2, v in t.items() if k2 != "code"}, "clause": clause, "node": k, "code": t["code"]}, key=f"{clause}:{t['kind']}")
+    judge(rep, traces)
     rep.rule = "random module graphs with 1-7 ops (direct backend), analyse_module's interpreter, and a module family through TorchDynamo; integer-valued inputs with zeros; graphs whose intermediate values leave the exactly representable range (|v| > 64) are skipped; non-trivial = at least 4 nodes"
     if traces:
         t = traces[len(traces) // 2]
@@ -413,8 +425,14 @@ def run(rep: Report, tier: str) -> None:
 
 
 def replay(rep: Report, path: str) -> None:
+    """Re-creates exactly the recorded case (family + case seed) on the current code."""
     d = json.load(open(path))
+    gen = d["case"].get("gen")
     rep.case("replay")
-    rep.case(d["case"].get("clause", ""))
-    rep.sample({"clause": d["case"].get("clause")})
-    run(rep, "quick")
+    rep.case(json.dumps(gen))
+    rep.sample({"gen": gen, "clause": d["case"].get("clause")})
+    torch.set_num_threads(2)
+    if not gen:
+        run(rep, "quick")
+        return
+    judge(rep, generate(gen) or [])
